@@ -39,6 +39,9 @@ WSet(o, m, v) == /\ o \in live /\ m \in Member \ ReadOnly
                  /\ val' = [val EXCEPT ![o][m] = v] /\ UNCHANGED live
 \* wrapper getter returning r
 WGet(o, m, r) == /\ o \in live /\ m \in Member /\ r = val[o][m] /\ UNCHANGED mvars
+\* an assignment of a value of the wrong type through a wrapper that checks types (Python): it is refused with an
+\* exception and the member keeps its value
+WBad(o, m, raised) == /\ o \in live /\ m \in Member /\ raised = 1 /\ UNCHANGED mvars
 \* a method of the library writes / reads the member
 LSet(o, m, v) == /\ o \in live /\ m \in Member
                  /\ val' = [val EXCEPT ![o][m] = v] /\ UNCHANGED live
